@@ -162,6 +162,8 @@ type It interface {
 	MoveNext() bool
 	Current() int
 }
+var _ = fmt.Sprint
+
 type In struct {
 	Idx    int    ` + "`json:\"idx\"`" + `
 	Tape   []bool ` + "`json:\"tape\"`" + `
@@ -223,7 +225,7 @@ func step(it It, r *rt.Rec) (ev Ev) {
 	ev.Op = "next"
 	defer func() {
 		if p := recover(); p != nil {
-			ev.Panic = fmt.Sprint(p)
+			ev.Panic = rt.PanicStr(p)
 		}
 		ev.Effs = append([][]any{}, r.Log[n:]...)
 		ev.Cur = it.Current()
@@ -238,7 +240,7 @@ func step(it It, r *rt.Rec) (ev Ev) {
 func construct(f mk, r *rt.Rec) (it It, pn string) {
 	defer func() {
 		if p := recover(); p != nil {
-			pn = fmt.Sprint(p)
+			pn = rt.PanicStr(p)
 		}
 	}()
 	return f(r, 0, 2), ""
